@@ -13,6 +13,10 @@ fails on an unset mark, a failed search or an address out of range) -- every lat
 ITS OWN range (no stale ln_glob mark may survive an aborted global); (3) "big": buffers of 260..2051 lines sitting on
 the growth boundaries of lbuf's line table (512, 1024, 2048) with command lists that insert 1..3 lines per visit, so
 that the table (and ln_glob with it) is re-allocated DURING the scan while marks are pending.
+Later streams: "minus1" (command lists leaving the current line at -1), "deep" (globals nested 2..9 levels with %g inner ranges:
+ln_glob[] has one bit per level, the eighth level is refused -- /repo daf82c9 -- with a message, and nothing deeper runs), "lead"
+(the global is preceded / followed DIRECTLY by a command line that modifies the buffer and then fails; u, redo, u u afterwards: the
+global is one undo step of its own, not merged with its neighbours).
 """
 import json, os, re, glob as _glob
 import vlib
@@ -23,6 +27,7 @@ TRUSTED = ['tools/props/c15.py GlobRef + tools/props/c06.py RefEd: the Python re
            "Python's re module on the generated loop-free patterns (literals, ., [set], ^, $; IGNORECASE)"]
 
 MODEL_MAX_LINES = 1100
+NEST_MAX = 7        # deepest nesting level of a global (ex.c ec_glob: `if (xgdep >= 7)`; one bit of the char ln_glob[i] per level)
 
 PATS = ['a', 'b', 'a[34]', '[ab]', 'x', '^a', '3$', 'a.', 'nomatch', '[1-4]', 'V', 'b[2-6]']
 
@@ -77,6 +82,7 @@ class GlobRef(c06.RefEd):
         self.grow_pending = 0       # the table grew during a scan while original lines were still to be visited
         self.aborts = 0             # top-level globals ended by a failing command list
         self.edits = 0
+        self.refused = 0            # globals refused because they were nested deeper than NEST_MAX levels
         self._pv = -1
         self._pm = {}
 
@@ -111,9 +117,14 @@ class GlobRef(c06.RefEd):
             return True
         if k == 'g':
             return self.glob(c)
+        if k == '' and self.cur + 1 < len(self.lines):
+            self.cur += 1               # ec_null (ex mode) steps to the next line BEFORE it resolves its address -- also when that fails
         return super().run(c)
 
     def glob(self, c):
+        if self.depth >= NEST_MAX:
+            self.refused += 1       # convention (ex.c since daf82c9): the eighth level fails like a bad address and shows a message
+            return False
         a = c.get('addr', [])
         if a == [] and self.depth == 0:
             a = '%'
@@ -182,6 +193,19 @@ class GlobRef(c06.RefEd):
 
 # ---------------------------------------------------------------------------------------------
 
+def ed_last_ok(case):
+    """does the last command of the lead line succeed (reference)?  memo-free, small cases only"""
+    ed = GlobRef(case['file'], {k: list(v) for k, v in case.get('files', {}).items()})
+    ed.lenient = True
+    for step in case.get('pre', []):
+        for c in step:
+            ed.run(c)
+    ok = True
+    for c in case.get('lead') or []:
+        ok = ed.run(c)
+    return ok
+
+
 def globs_of(case):
     return case['globs'] if 'globs' in case else [case['glob']]
 
@@ -191,7 +215,18 @@ def nblocks_of(case):
     return list(nb) if isinstance(nb, list) else [nb]
 
 
-def build_script(case):
+def one_line(cmds):
+    """several commands on one line (none of them carries a text block)"""
+    return '|'.join(r_cmd(c)[0] for c in cmds)
+
+
+def has_tail(case):
+    return case.get('kind') == 'lead'
+
+
+def build_script(case, for_model=False):
+    """`lead` / `post` (stream "lead"): a command line DIRECTLY before / after the global -- no probe marker in between, a marker is a
+    successful command and would end the undo step.  The tail (redo, u u) is not part of the model's fragment: for_model leaves it out."""
     lines = ['ec @A0@']
     for step in case.get('pre', []):
         for c in step:
@@ -199,28 +234,45 @@ def build_script(case):
     for g, nb in zip(globs_of(case), nblocks_of(case)):
         gl = r_cmd(g)
         lines.append('ec @B@')
+        if case.get('lead'):
+            lines.append(one_line(case['lead']))
         lines.append(gl[0])
         lines += body_blocks(g['body']) * nb
+        if case.get('post'):
+            lines.append(one_line(case['post']))
         lines += ['ec @C@', '%p']
-    lines += ['ec @D@', 'u', 'ec @E@', '%p', 'ec @F@', 'q!']
+    lines += ['ec @D@', 'u', 'ec @E@', '%p', 'ec @F@']
+    if has_tail(case) and not for_model:
+        lines += ['redo', 'ec @G@', '%p', 'ec @H@', 'u', 'u', 'ec @I@', '%p', 'ec @J@']
+    lines.append('q!')
     return ('\n'.join(lines) + '\n').encode()
 
 
-MARK_RE = re.compile(rb'@(A0|B|C|D|E|F)@')
+MARK_RE = re.compile(rb'@(A0|B|C|D|E|F|G|H|I|J)@')
 
 
-def parse_out(out, nglobs=1):
+def residue(tok):
+    """what a region holds behind its last newline: message text (ex_show prints no newline)"""
+    return tok.split(b'\n')[-1]
+
+
+def parse_out(out, nglobs=1, tail=False):
     i = out.find(b'@A0@')
     if i < 0:
         return None
     toks = MARK_RE.split(out[i:])
     names = toks[1::2]
-    if [n.decode() for n in names] != ['A0'] + ['B', 'C'] * nglobs + ['D', 'E', 'F']:
+    if [n.decode() for n in names] != ['A0'] + ['B', 'C'] * nglobs + ['D', 'E', 'F'] + (['G', 'H', 'I', 'J'] if tail else []):
         return None
     texts = toks[2::2]
-    return {'during': [c06.clean(texts[1 + 2 * k]) for k in range(nglobs)],
-            'after': [c06.clean(texts[2 + 2 * k]) for k in range(nglobs)],
-            'undone': c06.clean(texts[2 * nglobs + 2])}
+    d = {'during': [c06.clean(texts[1 + 2 * k]) for k in range(nglobs)],
+         'after': [c06.clean(texts[2 + 2 * k]) for k in range(nglobs)],
+         'undone': c06.clean(texts[2 * nglobs + 2]),
+         'msg': [bool(residue(texts[1 + 2 * k]).strip()) for k in range(nglobs)]}
+    if tail:
+        d['redone'] = c06.clean(texts[2 * nglobs + 4])
+        d['undone2'] = c06.clean(texts[2 * nglobs + 6])
+    return d
 
 
 _REF_MEMO = {}
@@ -242,18 +294,42 @@ def reference(case, low=False):
     want = {'during': [], 'after': [], 'undone': None}
     ed.per = []
     before = None
+    text = lambda: [l[1] for l in ed.lines]
+    steps = [text()]            # the buffer at the boundaries of the command lines that edited it (= the undo steps), stream "lead"
     for g in globs_of(case):
-        before = [l[1] for l in ed.lines]
         ed.out = []
-        v0, x0, e0 = len(ed.visits), ed.execs, ed.edits
+        if case.get('lead'):
+            e0 = ed.edits
+            for c in case['lead']:
+                ed.run(c)
+            if ed.edits > e0:
+                steps.append(text())
+        before = text()
+        v0, x0, e0, r0 = len(ed.visits), ed.execs, ed.edits, ed.refused
         ed.run(g)
+        ed.per.append({'visits': ed.visits[v0:], 'execs': ed.execs - x0, 'edits': ed.edits - e0, 'refused': ed.refused - r0})
+        if ed.edits > e0:
+            steps.append(text())
+        if case.get('post'):
+            e0 = ed.edits
+            for c in case['post']:
+                ed.run(c)
+            if ed.edits > e0:
+                steps.append(text())
         want['during'].append([x[1] if x[0] != 'N' else str(x[1]) for x in ed.out if x[0] != 'E'])
-        want['after'].append([l[1] for l in ed.lines])
-        ed.per.append({'visits': ed.visits[v0:], 'execs': ed.execs - x0, 'edits': ed.edits - e0})
+        want['after'].append(text())
     want['undone'] = before
+    ed.steps = steps
     # `u` takes back the most recent step that edited the buffer: when the last global made no edit and something
     # before it did, the property does not say what `u` restores -> that observable is then not judged by the oracle
     ed.undo_defined = ed.per[-1]['edits'] > 0 or (pre_edits == 0 and len(ed.per) == 1)
+    if has_tail(case):
+        # u takes back the last command line that edited, redo gives it back, u u takes back the last two -- each command line
+        # (the failing list in front of the global, the global, the failing list behind it) is a step of its own
+        ed.undo_defined = len(steps) >= 2 and pre_edits == 0
+        want['undone'] = steps[-2] if len(steps) >= 2 else None
+        want['redone'] = steps[-1] if ed.undo_defined else None
+        want['undone2'] = steps[-3] if len(steps) >= 3 and pre_edits == 0 else None
     if len(case['file']) > 64:
         _REF_MEMO[key] = (case, want, ed)
     return want, ed
@@ -421,6 +497,105 @@ def gen_minus1(rng):
     return None
 
 
+DEEP_LEVELS = [('g', 'a'), ('g', '[ab]'), ('g', '[ab]'), ('g', '[0-9]'), ('v', 'x'), ('g', 'a'), ('g', 'a[1-3]'), ('g', 'b'), ('v', 'b')]
+
+
+DEEP_SURE = [('g', 'a'), ('g', '[ab]'), ('g', '[0-9]'), ('v', 'x'), ('g', '^a')]
+
+
+def gen_deep(rng):
+    """globals nested 2..9 levels, the inner ones with their own ranges (`%g`: marks of several depths are pending on the same
+    lines at once).  ln_glob[] has one bit per level: levels 1..7 work, the eighth is refused with a message (and is the LAST command
+    of the seventh level's list, which therefore ends after its first execution), nothing deeper ever runs.  From depth 8 on only the
+    innermost list prints (a message has no newline and would glue to a printed line)."""
+    n = rng.choice([1, 2, 3, 4, 4])
+    flines = [rng.choice('aaab') + str(i + 1) for i in range(n)]
+    if rng.chance(1, 2):
+        flines = ['a' + str(i + 1) for i in range(n)]
+    for _ in range(10):
+        D = rng.choice([2, 3, 4, 5, 6, 7, 7, 8, 8, 8, 9, 9])
+        sure = rng.chance(2, 3)         # every level matches every line: the nesting really gets D levels deep
+        prod = 1
+        levels = []
+        for lev in range(1, D + 1):
+            if lev == 1:
+                addr = rng.choice([[], '%', gen_range(rng, n)])
+                size = n
+            elif (rng.chance(1, 3) or (lev >= D - 1 and rng.chance(2, 3))) and prod * n <= 300:
+                addr, size = '%', n
+            elif rng.chance(1, 8) and prod * 2 <= 300:
+                addr, size = [({'base': None, 'offs': [rng.choice([-1, 0])]}, ','), ({'base': None, 'offs': [rng.choice([0, 1])]}, None)], 2
+            else:
+                addr, size = [], 1
+            prod *= size
+            spell, pat = rng.choice(DEEP_SURE if sure else DEEP_LEVELS)
+            levels.append({'cmd': 'g', 'addr': addr, 'spell': spell, 'pat': pat, 'body': []})
+        t = rng.below(10)
+        inner = ([{'cmd': 'p'}] if t < 5 else [{'cmd': 's', 'pat': '$', 'rep': ' V'}] if t < 8 else
+                 [{'cmd': 'p'}, {'cmd': 's', 'pat': '$', 'rep': ' V'}] if t < 9 else [{'cmd': 'd'}])
+        levels[-1]['body'] = inner
+        for lev in range(D - 1, 0, -1):
+            extra = []
+            if rng.chance(1, 5):
+                extra = [{'cmd': 's', 'pat': '$', 'rep': ' L%d' % lev}] if D > NEST_MAX or rng.chance(1, 2) else [{'cmd': 'p'}]
+            levels[lev - 1]['body'] = extra + [levels[lev]]
+        case = {'kind': 'deep', 'depth': D, 'file': flines, 'pre': [], 'glob': levels[0], 'nblocks': 0}
+        if settle(case) is not None:
+            return case
+    return None
+
+
+def gen_lead(rng):
+    """the global is preceded DIRECTLY (no probe in between) by a command line that modifies the buffer and whose LAST command then
+    fails -- ex_exec reports the status of the last command only, ex_command must end the undo step all the same -- and sometimes
+    followed by one; controls: a lead that succeeds, one that fails without modifying, one that fails first and modifies after."""
+    n = rng.choice([3, 4, 5, 6, 8])
+    flines = [rng.choice('ab') + str(i + 1) for i in range(n)]
+    pre = [[{'cmd': 'rs', 'reg': 'r', 'text': ['r1'] + (['r2'] if rng.chance(1, 2) else [])}]]
+    num = lambda v: [({'base': ('n', v), 'offs': []}, None)]
+
+    def mods():
+        out = []
+        for _ in range(rng.choice([1, 1, 2])):
+            a = rng.choice([num(1), num(2), num(rng.range(1, n)), [], [({'base': ('$',), 'offs': []}, None)],
+                            [({'base': ('n', 1), 'offs': []}, ','), ({'base': ('n', 2), 'offs': []}, None)]])
+            t = rng.below(9)
+            if t < 4:
+                out.append({'cmd': 'd', 'addr': a})
+            elif t < 6:
+                out.append({'cmd': 's', 'addr': a, 'pat': rng.choice(['$', '^', '[0-9]']), 'rep': rng.choice([' W', 'zz'])})
+            elif t < 7:
+                out.append({'cmd': 'pu', 'addr': a, 'reg': 'r'})
+            else:
+                out += [{'cmd': 'y', 'addr': a}, {'cmd': 'pu', 'addr': rng.choice([[], num(0), num(1)])}]
+        return out
+
+    def fail():
+        f = gen_fail_cmd(rng)
+        if rng.chance(1, 3):
+            f = {'cmd': '', 'addr': f['addr']}          # a bare address that does not resolve: `2d|/nosuch/`
+        return f
+    for att in range(20):
+        shape = rng.below(10)
+        lead = mods() + [fail()] if shape < 7 else mods() if shape < 8 else [fail()] if shape < 9 else [fail()] + mods()
+        post = (mods() + [fail()]) if rng.chance(1, 3) else None
+        t = rng.below(10)
+        body = ([{'cmd': 's', 'pat': '$', 'rep': ' V'}] if t < 4 else [{'cmd': 'd'}] if t < 6 else gen_plain_body(rng) if t < 9 else gen_abort_body(rng))
+        if nested_text(body):
+            continue
+        g = {'cmd': 'g', 'addr': rng.choice([[], '%', gen_range(rng, n)]), 'spell': rng.choice(['g', 'g', 'g', 'v']),
+             'pat': rng.choice(['a', 'b', '[ab]', '[ab]', '[1-4]', 'x']), 'body': body}
+        case = {'kind': 'lead', 'file': flines, 'pre': pre, 'lead': lead, 'globs': [g], 'nblocks': [0]}
+        if post:
+            case['post'] = post
+        if settle(case) is None:
+            continue
+        _, ed = reference(case)
+        if len(ed.steps) >= 3 or att >= 3:        # mostly: the lead edits AND the global edits
+            return case
+    return None
+
+
 def gen_range(rng, n):
     rt = rng.below(10)
     if rt < 2:
@@ -554,7 +729,7 @@ def gen_big(rng, allow_2048):
 def model_request(case):
     extra = ' '.join('%s=%s' % (nme.encode().hex(), vlib.hx(''.join(l + '\n' for l in ls).encode()))
                      for nme, ls in sorted(case.get('files', {}).items()))
-    return ('run 1 %s %s %s' % (vlib.hx(''.join(l + '\n' for l in case['file']).encode()), build_script(case).hex(), extra)).rstrip()
+    return ('run 1 %s %s %s' % (vlib.hx(''.join(l + '\n' for l in case['file']).encode()), build_script(case, for_model=True).hex(), extra)).rstrip()
 
 
 # ---------------------------------------------------------------------------------------------
@@ -577,7 +752,7 @@ def check_case(vi, case, mans):
         files[nme] = ''.join(l + '\n' for l in ls).encode()
     sc = build_script(case)
     big = len(case['file']) > 64
-    t0 = 60 if big else 20
+    t0 = 60 if big else 10 if case.get('kind') == 'deep' else 20
     r = vlib.run_ex(vi, sc, files=files, args=['f'], timeout=t0)
     if r.timed_out:
         r = vlib.run_ex(vi, sc, files=files, args=['f'], timeout=3 * t0)
@@ -586,7 +761,7 @@ def check_case(vi, case, mans):
     if r.crashed():
         return 'crash', {'what': 'the editor crashed or hung on a global command (rc=%s, timed out=%s)' % (r.rc, r.timed_out), 'stderr': r.err[-500:].decode('latin-1')}
     ng = len(globs_of(case))
-    obs = parse_out(r.out, ng)
+    obs = parse_out(r.out, ng, has_tail(case))
     if obs is None:
         return 'violation', {'what': 'probe markers damaged (a text block was consumed a different number of times than the reference predicts?)',
                              'observed': r.out[-300:].decode('latin-1')}
@@ -598,18 +773,29 @@ def check_case(vi, case, mans):
         checks.append(('during', k, 'lines printed by the executions (order and set of visited lines)' + tag))
         checks.append(('after', k, 'buffer after the global: each original-range line that still exists is visited exactly once, in increasing order, '
                                    'inserted lines and lines outside the range never' + tag))
-    if ed.undo_defined:
+    if ed.undo_defined and not has_tail(case):
         checks.append(('undone', None, 'buffer after ONE undo must equal the text before the %sglobal' % ('' if ng == 1 else 'last ')))
+    if has_tail(case) and ed.undo_defined:
+        what = ('the global is ONE undo step OF ITS OWN -- not merged with the command line directly before / behind it (a list that edited the '
+                'buffer and whose last command then failed): ')
+        checks.append(('undone', None, what + 'buffer after one `u` = the text before the last command line that edited'))
+        checks.append(('redone', None, what + 'buffer after `u`, `redo` = the text after it'))
+        if want.get('undone2') is not None:
+            checks.append(('undone2', None, what + 'buffer after `u`, `redo`, `u`, `u` = the text before the last TWO command lines that edited'))
+    for k in range(ng):
+        if ed.per[k].get('refused'):
+            want.setdefault('msg', [False] * ng)[k] = True
+            checks.append(('msg', k, 'a global nested deeper than %d levels is refused: a message is shown (and its command list never runs)' % NEST_MAX))
     for key, k, what in checks:
         o = obs[key] if k is None else obs[key][k]
         w = want[key] if k is None else want[key][k]
         if o != w:
-            bw, bo = brief(w, o)
+            bw, bo = brief(w, o) if key != 'msg' else (w, o)
             det = {'what': what, 'expected': bw, 'observed': bo, 'visits(reference)': ed.per[k if k is not None else -1]['visits'][:60]}
             kf = None
             try:
                 w2, e2 = reference(case, low=True)
-                if e2.low_events and all(obs[kk] == w2[kk] for kk in ('during', 'after')) and (obs['undone'] == w2['undone'] or not e2.undo_defined):
+                if key != 'msg' and e2.low_events and all(obs[kk] == w2[kk] for kk in ('during', 'after')) and (obs['undone'] == w2['undone'] or not e2.undo_defined):
                     kf = 'KF-GLOB-LOW'
             except Exception:
                 pass
@@ -621,7 +807,9 @@ def check_case(vi, case, mans):
         if int(d.get('F', '0')) & 3:
             return 'disagree', {'what': 'model left its fragment (flags=%s)' % d.get('F')}
         mobs = parse_out(ms, ng)
-        if mobs != obs:
+        if mobs is not None and not any(p.get('refused') for p in ed.per):
+            mobs['msg'] = obs['msg']            # message text is compared only where the property's reference expects the refusal
+        if mobs != {k: v for k, v in obs.items() if k not in ('redone', 'undone2')}:
             det = {'what': 'model and implementation differ'}
             if mobs is None:
                 det['model'] = None
@@ -631,6 +819,9 @@ def check_case(vi, case, mans):
                         if mobs[key][k] != obs[key][k] and 'model' not in det:
                             det['observable'] = '%s[%d]' % (key, k)
                             det['model'], det['implementation'] = brief(mobs[key][k], obs[key][k])
+                if 'model' not in det and mobs['msg'] != obs['msg']:
+                    det['observable'] = 'message shown'
+                    det['model'], det['implementation'] = mobs['msg'], obs['msg']
                 if 'model' not in det:
                     det['observable'] = 'undone'
                     det['model'], det['implementation'] = brief(mobs['undone'], obs['undone'])
@@ -654,6 +845,9 @@ def fix_json(case):
             fc(x)
     for g in globs_of(case):
         fc(g)
+    for key in ('lead', 'post'):
+        for x in case.get(key) or []:
+            fc(x)
 
 
 def corpus_cases():
@@ -677,6 +871,12 @@ def simpler(case):
     """candidate simplifications of a failing case: drop one global, drop one command of a command list"""
     globs = globs_of(case)
     out = []
+    if case.get('post'):
+        out.append({k: v for k, v in case.items() if k != 'post'})
+    for key in ('lead', 'post'):
+        if len(case.get(key) or []) > 2:
+            for drop in range(len(case[key]) - 1):
+                out.append(dict(case, **{key: case[key][:drop] + case[key][drop + 1:]}))
     if len(globs) > 1:
         for j in range(len(globs)):
             out.append(dict(case, globs=globs[:j] + globs[j + 1:], nblocks=[0] * (len(globs) - 1)))
@@ -716,8 +916,10 @@ def run(ctx):
     res.rule = ('one case = one script of one or more global commands (pattern x range x command list from d, s, y, pu, r, a/i/c with text, p, relative '
                 'addresses, failing addresses, nested g/v) through the real `vi -s -e`, the extracted model and the identity-tracking reference; '
                 'streams: single global on 1..8 lines; histories of 2..4 globals where earlier ones abort after inserting/deleting; buffers of 260..2051 '
-                'lines on the growth boundaries of the line table with inserting command lists.  Compared: lines printed during each global, %p after '
-                'each, %p after one undo.  non-trivial = the reference executes a command list at least once and it changes the number of lines or '
+                'lines on the growth boundaries of the line table with inserting command lists; command lists leaving the current line at -1; globals '
+                'nested 2..9 levels with %g inner ranges (the eighth level is refused with a message); a global directly preceded / followed by a '
+                'command line that edits and then fails, with u, redo, u u behind.  Compared: lines printed during each global, %p after '
+                'each, %p after one undo (after redo and two undos in the last stream), message shown where a refusal is expected.  non-trivial = the reference executes a command list at least once and it changes the number of lines or '
                 'uses an address; distinct = distinct script + file length')
     if ctx.replay:
         rp = json.load(open(ctx.replay))
@@ -739,6 +941,14 @@ def run(ctx):
             c = gen_minus1(rng.fork('m%d' % i))
             if c is not None:
                 c['kind'] = 'minus1'
+                cases.append(c)
+        for i in range(120 if ctx.quick else 3000):
+            c = gen_deep(rng.fork('d%d' % i))
+            if c is not None:
+                cases.append(c)
+        for i in range(300 if ctx.quick else 8000):
+            c = gen_lead(rng.fork('l%d' % i))
+            if c is not None:
                 cases.append(c)
     mans = [None] * len(cases)
     if model:
@@ -793,6 +1003,14 @@ def run(ctx):
                 res.count('tracks_low broken by the body (KF-GLOB-LOW territory)')
             if ed.grow_pending:
                 res.count('line table grew during the scan while marks were pending')
+            if ed.refused:
+                res.count('a global nested deeper than %d levels refused' % NEST_MAX)
+            if case.get('kind') == 'deep':
+                res.count('nesting depth %d' % case.get('depth', 0))
+            if has_tail(case):
+                res.count('undo steps around the global: %d' % (len(ed.steps) - 1))
+                if case.get('lead') and len(ed.steps) >= 3:
+                    res.count('the command line directly before the global edited' + (' and failed' if not ed_last_ok(case) else ''))
             if ed.aborts:
                 res.count('a global aborted by a failing command list')
                 if len(globs) > 1 and any(p['execs'] for p in ed.per[1:]):
